@@ -441,15 +441,31 @@ func (s *SSEServer) handleSSE(w http.ResponseWriter, r *http.Request) {
 	// Send initial connection message.
 	stream.SendComment("connection established")
 
+	// The pumps below write to w; the handler must not return before they have stopped, because the
+	// ResponseWriter (and the buffers behind it) must not be used after ServeHTTP returns.
+	var pumps sync.WaitGroup
+
 	// Start notification handler.
-	go handleNotifications(ctx, s.logger, w, flusher, session)
+	pumps.Add(1)
+	go func() {
+		defer pumps.Done()
+		handleNotifications(ctx, s.logger, w, flusher, session)
+	}()
 
 	// Start event queue handler.
-	go handleEventQueue(ctx, s.logger, w, flusher, session)
+	pumps.Add(1)
+	go func() {
+		defer pumps.Done()
+		handleEventQueue(ctx, s.logger, w, flusher, session)
+	}()
 
 	// Start keep-alive handler.
 	if s.keepAlive {
-		go handleKeepAlive(ctx, s.logger, w, flusher, session, s.keepAliveInterval)
+		pumps.Add(1)
+		go func() {
+			defer pumps.Done()
+			handleKeepAlive(ctx, s.logger, w, flusher, session, s.keepAliveInterval)
+		}()
 	}
 
 	// Wait for connection to close.
@@ -465,6 +481,7 @@ func (s *SSEServer) handleSSE(w http.ResponseWriter, r *http.Request) {
 	// Clean up resources.
 	closeSessionDone(s.logger, session)
 	s.sessions.Delete(sessionID)
+	pumps.Wait()
 	s.logger.Debugf("Cleaned up session %s", sessionID)
 }
 
